@@ -49,8 +49,10 @@ Print Assumptions C02_whole_input_accepted.
 
 (* Accept-soundness for the arithmetic core (literals incl. the polymorphic 0, identifiers and
    units, unary operators, + - -> * / ^const, comparisons, == !=, && ||, if, calls of functions
-   with monomorphic signatures; everything except list literals) in environments whose entries
-   are monomorphic (env_ok): if the elaborator accepts e with type t and the solver solves the
+   everything except list literals) in well-formed environments (env_ok: monomorphic entries have a
+   meaning; generalised, quantified entries — generic library and user functions, polymorphic
+   values — have a meaning under every instantiation of their bound variables that respects their
+   Dim bounds; instantiation of quantified schemes with fresh variables is covered): if the elaborator accepts e with type t and the solver solves the
    generated constraints with sigma, then in EVERY valuation that is an instance of sigma, gives
    the Dim-bounded variables dimensions and is well-sorted, e has — by the declarative dimensional
    analysis has_ty of Dim/Sem.v — exactly the dimension/type that t denotes, which is also what
@@ -171,6 +173,20 @@ Proof.
   intro th. split; [intros ? ? []|]. split; [intros ? []|]. split.
   - intros m Hm. simpl in Hm. unfold tdef.
     repeat (destruct Hm as [<-|Hm]; [simpl; eauto|]). contradiction.
-  - intros x e. simpl. destruct (String.eqb x "meter"); [intro H; inversion H; subst; repeat split; unfold tdef; simpl; eauto|].
-    destruct (String.eqb x "second"); [intro H; inversion H; subst; repeat split; unfold tdef; simpl; eauto|discriminate].
+  - intros x e. simpl.
+    destruct (String.eqb x "meter"); [intro H; inversion H; subst; split; [constructor|intros; unfold tdef; simpl; eauto]|].
+    destruct (String.eqb x "second"); [intro H; inversion H; subst; split; [constructor|intros; unfold tdef; simpl; eauto]|discriminate].
+Qed.
+
+(* env_ok is satisfiable for a generic entry: sqrt-like  forall D: Dim. (D^2) -> D *)
+Example C02_env_ok_polymorphic :
+  forall th : valuation,
+    env_ok th [("sq", IdFunction (FQuantified 1 [TDim [(FVar (VQuant 0), qc 2)]]
+                                               (TDim [(FVar (VQuant 0), Qc1)]) [TVar (VQuant 0)]))].
+Proof.
+  intros th x e. simpl. destruct (String.eqb x "sq"); [|discriminate].
+  intro H. inversion H; subst. split. { repeat constructor. exists 0%nat. reflexivity. }
+  intros vsem Hl BH. destruct vsem as [|v0 [|? ?]]; try discriminate.
+  destruct (BH (TVar (VQuant 0)) (or_introl eq_refl)) as [d Hd]. simpl in Hd. inversion Hd; subst.
+  split; [repeat constructor|]; unfold tdef; simpl; eauto.
 Qed.
